@@ -254,11 +254,12 @@ func runKillCase(c *killCase) (impl, pred string) {
 	case !exited && c.beh != "startfails":
 		// (startfails: go-plugin never got to watch that process; only its end is claimed)
 		pred = "FAIL:exited-false-after-kill"
-	case (c.beh == "fast" || c.beh == "fast500" || c.beh == "fastlost" || c.beh == "busy1000") && c.pattern == "single" && forced && (c.proto != "netrpc" || !clean):
+	case (c.beh == "fast" || c.beh == "fast500" || c.beh == "fastlost" || c.beh == "busy1000") && c.pattern != "cleanup" && forced && (c.proto != "netrpc" || !clean):
 		// (net/rpc: a force kill issued after the plugin had already finished its clean-up and left is the harmless
 		// shutdown race of RPCClient.Close; the clean-up marker tells the two apart)
 		pred = "FAIL:graceful-plugin-force-killed"
-	case (c.beh == "fast" || c.beh == "fast500" || c.beh == "fastlost" || c.beh == "busy1000") && c.pattern == "single" && !clean:
+	case (c.beh == "fast" || c.beh == "fast500" || c.beh == "fastlost" || c.beh == "busy1000") && c.pattern != "cleanup" && !clean:
+		// (whatever the call pattern: a Kill that overlaps an earlier one must not cut the plugin's clean-up short)
 		pred = "FAIL:graceful-plugin-did-not-finish-cleanup"
 	case (c.beh == "slow" || c.beh == "ignores" || c.beh == "frozen") && !forced:
 		pred = "FAIL:unresponsive-plugin-not-force-killed"
@@ -293,6 +294,10 @@ func init() {
 				cases = append(cases, &killCase{proto, beh, "cmd", "single"})
 				if proto != "grpcmux" {
 					cases = append(cases, &killCase{proto, beh, "runner", "single"})
+				}
+				if beh == "fast500" && tier() != "thorough" {
+					// a plugin inside its grace period when the second, third, fourth Kill begin
+					cases = append(cases, &killCase{proto, beh, "cmd", "concurrent"})
 				}
 				if beh == "fast" || beh == "ignores" || beh == "dead" {
 					cases = append(cases, &killCase{proto, beh, "cmd", "repeat"}, &killCase{proto, beh, "cmd", "concurrent"})
